@@ -7,7 +7,7 @@ from .report import Report
 LEVELS = {}
 
 
-def simple(prop, tier, seed, level, rule, profiles=("debug", "release"), timeout=300, assumptions=None, jobs=None,
+def simple(prop, tier, seed, level, rule, profiles=("debug", "release"), timeout=150, assumptions=None, jobs=None,
            crash_is_violation=True, extra=None):
     rep = Report(prop, tier, seed, level, rule, assumptions)
     for profile in profiles:
@@ -34,7 +34,42 @@ def run_C01(tier, seed):
                                "the file system of /verif/work behaves (no injected I/O faults in this check)"])
 
 
-PROPS = {"C01": run_C01}
+def run_C02(tier, seed):
+    return simple("C02", tier, seed, "exploration",
+                  "cases = seeded schemas (0..6 common properties, 0..4 variants of unequal size incl. empty ones, kinds uint/sint/"
+                  "array(prefix 0..31, plain|indexed store, shared)/content address, constant and varying columns, values at every "
+                  "byte-width boundary and both signs, arrays around the prefix length and the 255/256 length boundary) x entry "
+                  "counts {0,1,2,255..257,..thousands} x 1..3 index windows, written to a file or a memory cursor and read back "
+                  "through DirectoryPack/Index/AnyBuilder. Non-trivial = >= 1 entry and (>= 2 properties or a variant). Distinct = "
+                  "hash(schema shape, column kinds and value classes, entry-count class, window shapes).",
+                  assumptions=["values are derived from (case seed, store, column, entry number) by the harness generator",
+                               "the expected final order of an unsorted store is the insertion order"])
+
+
+def run_C03(tier, seed):
+    return simple("C03", tier, seed, "exploration",
+                  "cases = sorted stores with unique key tuples: array keys over small alphabets {00,ff}/{00,ff,a,b}/all bytes sharing "
+                  "prefixes shorter, equal and longer than the inline prefix (every prefix 0..31 in thorough, {0,1,2,3,8,31} in quick), "
+                  "plain and indexed stores, uint/sint keys, two-property keys, 1..5000 keys, whole-store and window indexes. Monitors: "
+                  "read-back position = position in the model sorted with the reader's comparison; consecutive keys read back never "
+                  "decrease; for every present key (sampled above 120/400) and generated absent neighbours, linear and binary "
+                  "Range::find must both answer exactly the expected position / None. Non-trivial = >= 2 keys sharing a first byte "
+                  "(arrays) or >= 2 integer keys. Distinct = hash(schema, prefix length, store kind, size class).",
+                  assumptions=["key tuples are made unique by the generator (duplicates are outside the property's quantifier)",
+                               "binary search is driven through a CompareTrait wrapper answering ordered()==true around the library's PropertyCompare"])
+
+
+def run_C15(tier, seed):
+    return simple("C15", tier, seed, "exploration",
+                  "cases = one store of 2..12000 (thorough ..65537) entries with a unique id, 1..2 deferred reference properties bound "
+                  "to other entries' handles (patterns next/prev/self/permutation/all-to-one/random, rotating with the case index), "
+                  "unsorted or sorted on a distinct uint/sint/array key, optional variants carrying a reference; every stored reference "
+                  "and every handle returned by add_entry is compared with the position at which the referenced entry is read back. "
+                  "Non-trivial = a reference column and >= 2 entries. Distinct = hash(schema, pattern, sortedness, size class, windows).",
+                  assumptions=["final positions are recomputed by the model: insertion order, or a stable sort on the unique key"])
+
+
+PROPS = {"C01": run_C01, "C02": run_C02, "C03": run_C03, "C15": run_C15}
 
 
 def cmd_setup():
